@@ -46,7 +46,7 @@ func runLoaders(c map[string]any) (any, error) {
 
 	switch op := getStr(c, "op"); op {
 	case "pool":
-		return c19Pool()
+		return c19Pool(c)
 	case "material":
 		return c19Material(c)
 	case "ruleset":
